@@ -214,6 +214,10 @@ func (w *World) exchange(p *pfcpx.Peer, kind string, req map[string]interface{},
 		}
 	}
 
+	if w.connBefore != "" {
+		ev["connBefore"] = w.connBefore
+	}
+
 	ev["markers"] = w.collectMarkers(programmedAt)
 	if w.SnapEvery {
 		ev["snap"] = w.snapJSON()
@@ -243,6 +247,16 @@ func (w *World) Assoc(peer string) []pfcpx.Dgram {
 	p := w.Peer(peer)
 	seq := p.NextSeq()
 	m := message.NewAssociationSetupRequest(seq, ie.NewNodeID(p.NodeID, "", ""), ie.NewRecoveryTimeStamp(p.TS))
+
+	w.connBefore = "unknown"
+	if w.SnapEvery {
+		// the agent's own view of datapath connectivity immediately before the request (C12)
+		if sn := w.snapJSON(); sn["has"] == true {
+			w.connBefore = map[bool]string{true: "yes", false: "no"}[sn["connected"] == true]
+		}
+	}
+
+	defer func() { w.connBefore = "" }()
 
 	return w.exchange(p, "assoc", map[string]interface{}{"seq": pfcpx.V32(uint64(seq)), "node": "n:" + p.NodeID}, marshal(m), true, 0)
 }
@@ -471,19 +485,23 @@ func (w *World) InjectResp(peer string, which int, seid uint64) []pfcpx.Dgram {
 	return w.exchange(p, "injectResp", map[string]interface{}{"seq": pfcpx.V32(uint64(seq)), "type": names[which]}, marshal(m), false, 6*time.Millisecond)
 }
 
-// WaitLost waits until the agent has torn the association of the peer down on its own (read time-out or
-// unanswered heartbeats) and records the "lost" event with what the datapath holds afterwards.
-func (w *World) WaitLost(peer string, why string, timeout time.Duration) bool {
+// AwaitTeardown waits until the agent has torn the association of the peer down on its own (hook event).
+func (w *World) AwaitTeardown(peer string, before int, timeout time.Duration) bool {
 	p := w.Peer(peer)
-	before := w.EventCount("conn.shutdown.done", p.LocalAddr())
 	ok := w.WaitEventCount("conn.shutdown.done", p.LocalAddr(), before+1, timeout)
 	w.settle(p, true, 5*time.Millisecond)
 
-	if !ok {
-		w.LastErr = "association of " + peer + " was not torn down within the time limit (" + why + ")"
-		return false
-	}
+	return ok
+}
 
+// TeardownCount returns how many teardowns of the peer's association have completed so far.
+func (w *World) TeardownCount(peer string) int {
+	return w.EventCount("conn.shutdown.done", w.Peer(peer).LocalAddr())
+}
+
+// RecordLost records the "lost" event with what the datapath holds now.
+func (w *World) RecordLost(peer, why string) {
+	p := w.Peer(peer)
 	ev := map[string]interface{}{"ev": "lost", "peer": p.Name, "why": why}
 	t := w.Bess.Snapshot()
 	ev["dp"] = w.dpJSON()
@@ -498,6 +516,18 @@ func (w *World) WaitLost(peer string, why string, timeout time.Duration) bool {
 	w.emit(ev)
 	w.Steps++
 	w.CheckAlive()
+}
+
+// WaitLost waits until the agent has torn the association of the peer down on its own (read time-out or
+// unanswered heartbeats) and records the "lost" event with what the datapath holds afterwards.
+func (w *World) WaitLost(peer string, why string, timeout time.Duration) bool {
+	before := w.TeardownCount(peer)
+	if !w.AwaitTeardown(peer, before, timeout) {
+		w.LastErr = "association of " + peer + " was not torn down within the time limit (" + why + ")"
+		return false
+	}
+
+	w.RecordLost(peer, why)
 
 	return true
 }
@@ -788,4 +818,37 @@ func (w *World) Cleanup(peer string) {
 	w.collectMarkers(time.Time{})
 	w.emit(map[string]interface{}{"ev": "cleanup", "peer": p.Name, "newToks": toks, "dp": w.dpJSON(), "cmds": t.Cmds, "errs": t.Errs})
 	w.CheckAlive()
+}
+
+// Retrans records one agent-originated request as the scripted peer saw it (C12).
+func (w *World) Retrans(peer, kind string, seq uint32, txMs []int, mode string, k int, dead bool, n, tMs int) {
+	if txMs == nil {
+		txMs = []int{}
+	}
+
+	w.emit(map[string]interface{}{"ev": "retrans", "peer": peer, "kind": kind, "seq": pfcpx.V32(uint64(seq)), "tx": txMs, "mode": mode, "k": k, "dead": dead, "n": n, "tMs": tMs})
+	w.Steps++
+}
+
+// Postpone records the heartbeat-postponement observation (C12): times in ms since the start of the world.
+func (w *World) Postpone(peer string, prevAgentHb, peerHb, nextAgentHb, intervalMs int) {
+	w.emit(map[string]interface{}{"ev": "postpone", "peer": peer, "prevAgentHb": prevAgentHb, "peerHb": peerHb, "nextAgentHb": nextAgentHb, "intervalMs": intervalMs})
+	w.Steps++
+}
+
+// Ms converts a time to milliseconds since the start of the world.
+func (w *World) Ms(t time.Time) int { return int(t.Sub(w.t0) / time.Millisecond) }
+
+// PeerAt creates the scripted peer with a fixed local address (UPF-initiated association dials <ip>:8805).
+func (w *World) PeerAt(name, local string) (*pfcpx.Peer, error) {
+	host, _, _ := net.SplitHostPort(local)
+
+	p, err := pfcpx.NewPeer(name, local, w.Cfg.N4Addr+":8805", host)
+	if err != nil {
+		return nil, err
+	}
+
+	w.Peers[name] = p
+
+	return p, nil
 }
